@@ -254,11 +254,11 @@ def rule_c(ctx, sa, fa, acc_f, ls):
     ctx.need(len(rets) == 1 and isinstance(rets[0], ast.Tuple) and len(rets[0].elts) == 3, f"{ef.qname}: does not return one (reduced Jacobian, reduced rhs, J^-1) triple")
     e_RJ, e_RR, e_J = rets[0].elts
     J_txt = f"diags(1.0 / {pj}.diagonal()[self.flux_slice])"
-    xJ = conv(expand(ef.node, e_J))
+    xJ = conv(expand(ef.node, e_J, helpers=True))
     J = NC.sym(J_txt)
     D, DT = NC.sym("self.D"), NC.sym("self.DT")
     ctx.ob(R, ef.qname, "J^-1 is the inverse of the diagonal of the flux block", xJ == J, repr(xJ), ef.node)
-    xRJ = conv(expand(ef.node, e_RJ))
+    xRJ = conv(expand(ef.node, e_RJ, helpers=True))
     ctx.ob(R, ef.qname, "Schur complement is self.D . J^-1 . self.DT", xRJ - NC.sym("self.jacobian_subblock") == D @ J @ DT, repr(xRJ), ef.node)
     ctx.ob(R, ef.qname, "reduced Jacobian = constant sub-block + Schur complement", xRJ == NC.sym("self.jacobian_subblock") + D @ J @ DT, repr(xRJ), ef.node)
     ok = False
@@ -268,7 +268,7 @@ def rule_c(ctx, sa, fa, acc_f, ls):
         aug = [st for st in ast.walk(ef.node) if isinstance(st, ast.AugAssign) and norm(st.target) == e_RR.id]
         desc = f"{[norm(a) for a in inits + aug]}"
         ok = len(inits) == 1 and norm(inits[0].value) == f"{pr}[self.reduced_system_slice].copy()" and len(aug) == 1 and isinstance(aug[0].op, ast.Sub) \
-            and conv(expand(ef.node, aug[0].value)) == D @ J @ NC.sym(f"[{pr}[self.flux_slice]]")
+            and conv(expand(ef.node, aug[0].value, helpers=True)) == D @ J @ NC.sym(f"[{pr}[self.flux_slice]]")
     ctx.ob(R, ef.qname, "reduced rhs = r[reduced] - D . J^-1 . r[flux]", ok, desc, ef.node)
     ctx.ob(R, ef.qname, "returns (reduced Jacobian, reduced rhs, J^-1)", True, "", ef.node)
     # compute_flux_update
